@@ -128,7 +128,29 @@ def _py(text, cits, file):
         return k, k
 
 
+def _api_direct(file, names):
+    """The database built from Entry objects with add_entry: no .bib text, so a field and a role may share a name."""
+    from pybtex import errors
+    from pybtex.database import BibliographyData, Entry, Person
+    try:
+        bib = BibliographyData()
+        with errors.capture():
+            for e in file:
+                entry = Entry(e['type'], fields=[(n, v) for n, v in e['fields']],
+                              persons=[(r, [Person(nm) for nm in names_]) for r, names_ in e['persons']])
+                bib.add_entry(e['key'], entry)
+        with_db = [[e.key, [_lookup(e, n, bib) for n in names]] for e in bib.entries.values()]
+        without = [[e.key, [_lookup(e, n, None) for n in names]] for e in bib.entries.values()]
+        return with_db, without
+    except Exception as e:  # noqa
+        k = compat.pybtex_error_kind(e)
+        return k, k
+
+
 def impl(case):
+    if case['op'] == 'findfield_api':
+        api, nodb = _api_direct(case['file'], case['names'])
+        return {'api': api, 'api_nodb': nodb}
     text = dbcommon.bib_text(case['file'])
     cits = [e['key'] for e in case['file']]
     api, nodb = _api(text, case['names'])
@@ -139,6 +161,8 @@ def impl(case):
 
 def model_out(case, reply):
     out = dict(reply['out'])
+    if case['op'] == 'findfield_api':
+        return out
     idx = [case['names'].index(n) for n in PY_NAMES]
     if isinstance(out['py'], list):
         out['py'] = [[k, [vals[i] for i in idx]] for k, vals in out['py']]
@@ -146,7 +170,11 @@ def model_out(case, reply):
 
 
 def valid_case(case):
-    if set(case) != {'op', 'file', 'names'} or case['op'] != 'findfield' or case['names'] != NAMES:
+    if set(case) != {'op', 'file', 'names'} or case['op'] not in ('findfield', 'findfield_api'):
+        return False
+    if case['op'] == 'findfield_api':
+        return case['names'] == API_NAMES and dbcommon.valid_file(case['file'], allow_overlap=True)
+    if case['names'] != NAMES:
         return False
     if not dbcommon.valid_file(case['file']):
         return False
@@ -169,19 +197,22 @@ def oracle(case, impl_out, reply):
     fails = []
     want = {k.lower(): vals for k, vals in spec['lookup']}
     own = {k.lower(): vals for k, vals in spec['own']}
-    par = {k.lower(): vals[0] for k, vals in spec['parent']}
+    par = {k.lower(): vals[0] for k, vals in spec.get('parent', [])}
 
     def clause(key, i, got):
         k = key.lower()
         if isinstance(got, str) and got.startswith('INTERNAL:'):
             return 'terminates'
         if own[k][i] is not None:
-            return 'own_field_wins' if names[i] != 'author' else 'person_roles_joined'
+            e = [e for e in case['file'] if e['key'].lower() == k][0]
+            is_field = any(n.lower() == names[i].lower() for n, _ in e['fields'])
+            return 'own_field_wins' if is_field else 'person_roles_joined'
         if want[k][i] is None:
             return 'missing_iff'
         return 'inherits_nearest'
 
-    for side, cols in (('api', names), ('bst', names), ('py', PY_NAMES)):
+    sides = (('api', names),) if case['op'] == 'findfield_api' else (('api', names), ('bst', names), ('py', PY_NAMES))
+    for side, cols in sides:
         rows = impl_out[side]
         if isinstance(rows, str):
             fails.append('%s: the %s observation raised %s' % ('terminates' if 'Recursion' in rows else 'never_crash', side, rows))
@@ -204,6 +235,8 @@ def oracle(case, impl_out, reply):
             for i, got in enumerate(vals):
                 if got != own[key.lower()][i]:
                     fails.append('own_field_wins: _find_field(%r) without bib_data in entry %r gives %r, the entry itself defines %r' % (names[i], key, got, own[key.lower()][i]))
+    if case['op'] == 'findfield_api':
+        return fails
     # a dangling reference is reported as a bad cross-reference by resolution (both engines cite every entry)
     dang = [[c.lower(), x.lower()] for c, x in spec['dangling']]
     for side in ('bst_reports', 'py_reports'):
@@ -234,7 +267,9 @@ def _xref(e):
 
 def buckets(case, impl_out):
     file = case['file']
-    b = ['n=%d' % len(file)]
+    b = ['n=%d' % len(file), case['op']]
+    if case['op'] == 'findfield_api' and any({n.lower() for n, _ in e['fields']} & {r.lower() for r, _ in e['persons']} for e in file):
+        b.append('field_and_role_same_name')
     low = {e['key'].lower(): e for e in file}
     shapes = set()
     for e in file:
@@ -312,6 +347,25 @@ def _exhaustive(n, rng=None, sample=None):
     return cases
 
 
+API_NAMES = ['author', 'note', 'zz']
+
+
+def _api_cases(n):
+    """every graph on n entries x every assignment of {field author, role author, field note}: a field and a role
+    of the same name are possible here (the field must win)"""
+    keys, graphs = _graphs(n)
+    assigns = list(itertools.product(itertools.product([False, True], repeat=3), repeat=n))
+    cases = []
+    for g in graphs:
+        for a in assigns:
+            file = []
+            for k, x, (fa, ra, fn) in zip(keys, g, a):
+                fields = ([['author', 'Fa' + k]] if fa else []) + ([['crossref', x]] if x is not None else []) + ([['Note', 'Nn' + k]] if fn else [])
+                file.append({'key': k, 'type': 'misc', 'fields': fields, 'persons': [['Author', AUTH[k]]] if ra else []})
+            cases.append({'op': 'findfield_api', 'file': file, 'names': API_NAMES})
+    return cases
+
+
 POOL = ['k1', 'K2', 'knuth84', 'Lam:86', 'x', 'Y', 'book-1', 'Proc.A', 'zeta', 'Eta']
 LETTERS = 'abcdefghij'
 
@@ -361,6 +415,9 @@ def gen_cases(tier, rng, info):
         cases += _exhaustive(3)
         info['scope'] = ('every graph on <=3 entries (crossref in {none, each key, each key in the other case, zz}: 512 graphs on 3 entries) '
                          'x every assignment of note/howpublished/author (512) x all queries: %d cases' % len(cases))
+    api = _api_cases(1) + _api_cases(2) + (_api_cases(3) if tier == 'thorough' else [])
+    cases += api
+    info['scope'] += '; entry API on databases built from Entry objects (field and role of one name possible): %d cases' % len(api)
     info['exhaustive'] = True
     for _ in range(3000 if tier == 'quick' else 40000):
         cases.append(_random_case(rng))
